@@ -12,6 +12,7 @@
      migration/task.rs       SwitchArg::{into_strings, from_strings}
      proxy/executor.rs       handle_umctl_info_migration           (task.into_strings().join(" "))
      coordinator/migration.rs   parse_migration_task_meta          (split(' ') + MigrationTaskMeta::from_strings)
+     coordinator/sync.rs     filter_proxy_masters, generate_repl_meta_cmd_args, generate_proxy_meta_cmd_args   (coord_repl, coord_pcm)
 
    Conventions.
    * `usize` is 64 bit.  `str::parse::<u64>/<usize>`: optional leading '+', then at least one ASCII digit, digits only,
@@ -20,8 +21,8 @@
    * Iterator parsers take the remaining tokens and return the value with the tokens left over.
    * `Option`-returning Rust functions fail with `Err ENone`; `Panic` is the arithmetic-overflow panic of
      `s.end() + 1` in RangeList::compact (overflow checks are on in the unoptimised build, the only one that compiles
-     here; without them the addition wraps).  The two `expect("RangeList::compact")` index checks of that loop are
-     in bounds by construction (a < b <= len) and are not represented: compaction is modelled on lists.
+     here; without them the addition wraps).  The loop of compact is given twice: on lists (`compact`, used by the
+     parsers) and index by index with its two `expect`s as explicit panics (`compact_idx`); the two are proved equal.
    * HashMaps are association lists; iteration order is the list order, so a statement over all lists covers every
      hash order.  `HashMap::entry(k).or_insert_with(Vec::new).push(v)` is `nm_push`.
    * Loops that call sub-parsers use fuel; running out of fuel is the distinct error `EFuel`. *)
@@ -157,6 +158,41 @@ Definition compact (l : list range) : option (list range) :=
   | [] => Some []
   | c :: r => merge_ranges c r
   end.
+
+(* The same loop index by index, as the code has it: `a` and `b` index the vector, the two `expect("RangeList::compact")`
+   are explicit panics.  Proofs/WireProofsCompact.v shows compact_idx = compact (so the expects are unreachable and
+   the list version above may be used everywhere). *)
+Inductive cres := CDone (l : list range) | CPanicOverflow | CPanicExpect | CFuel.
+
+Fixpoint set_nth {A} (i : nat) (x : A) (l : list A) : list A :=
+  match l, i with
+  | [], _ => []
+  | _ :: t, O => x :: t
+  | h :: t, S j => h :: set_nth j x t
+  end.
+
+Fixpoint compact_loop (fuel : nat) (v : list range) (a b : nat) : cres :=
+  match fuel with
+  | O => CFuel
+  | S f =>
+    match nth_error v b with
+    | None => CDone (firstn (a + 1) v)                        (* self.0.truncate(a + 1) *)
+    | Some e =>
+      match nth_error v a with
+      | None => CPanicExpect                                  (* self.0.get_mut(a).expect(..) *)
+      | Some s =>
+        if usize_max <=? snd s then CPanicOverflow            (* s.end() + 1 *)
+        else if fst e <=? snd s + 1 then compact_loop f (set_nth a (fst s, N.max (snd s) (snd e)) v) a (S b)
+        else match nth_error v (a + 1) with
+             | None => CPanicExpect                           (* self.0.get_mut(a + 1).expect(..) *)
+             | Some _ => compact_loop f (set_nth (a + 1) e v) (S a) (S b)
+             end
+      end
+    end
+  end.
+
+Definition compact_idx (l : list range) : cres :=
+  let v := sort_ranges (map norm_range l) in compact_loop (S (length v)) v 0 1.
 
 Definition range_tok (r : range) : tok := to_dec (fst r) ++ c_minus :: to_dec (snd r).
 
@@ -806,9 +842,18 @@ Definition kw_like (t : tok) : bool :=
 (* equal, or the same PEER / CONFIG / MIGRATING / IMPORTING keyword in another case (the parsers ignore keyword case) *)
 Definition tok_eqb_kw (a b : tok) : bool := bytes_eqb a b || (kw_like a && bytes_eqb (to_upper a) (to_upper b)).
 
+Definition cfield_eqb (a b : cfield) : bool :=
+  match a, b with
+  | FStrategy, FStrategy | FMaxMigration, FMaxMigration | FMaxBlocking, FMaxBlocking
+  | FScanInterval, FScanInterval | FScanCount, FScanCount => true
+  | _, _ => false
+  end.
+(* the printer always lists all five config fields *)
+Definition full_order (ord : list cfield) : bool := forallb (fun f => existsb (cfield_eqb f) ord) all_cfields.
+
 Definition in_language (unpack : tok -> option pcm_data) (toks : list tok) : bool :=
   match parse_pcm unpack toks with
-  | Ok (m, true) => list_eqb tok_eqb_kw (pcm_to_args (config_order toks) m) toks
+  | Ok (m, true) => full_order (config_order toks) && list_eqb tok_eqb_kw (pcm_to_args (config_order toks) m) toks
   | _ => false
   end.
 
@@ -826,7 +871,7 @@ Definition same_tokens (a b : list tok) : bool :=
 
 Definition in_language_regrouped (unpack : tok -> option pcm_data) (toks : list tok) : bool :=
   match parse_pcm unpack toks with
-  | Ok (m, true) => same_tokens (pcm_to_args (config_order toks) m) toks
+  | Ok (m, true) => full_order (config_order toks) && same_tokens (pcm_to_args (config_order toks) m) toks
   | _ => false
   end.
 
